@@ -1,4 +1,5 @@
 import FimVerif.Proofs.Lemmas.C06Sp
+import FimVerif.Proofs.Lemmas.C06Nbr
 namespace FimVerif.Query
 open FimVerif.Gen
 
@@ -219,5 +220,49 @@ theorem chordFree_iff {g : TGraph} {p : List String} :
         · exact Or.inr h1
       · exact Or.inl (Or.inl (Or.inr hb))
     · exact Or.inl (Or.inl (Or.inl ha))
+
+/-- the contract of `get_nodes_on_path_with_hops`: a loop-free path from `a` to `z` with at most `cutoff` edges
+    that contains every requested hop -/
+def HopPath (g : TGraph) (a z : String) (hops : List String) (cutoff : Nat) (p : List String) : Prop :=
+  IsPath g none a z p ∧ LoopFree g p ∧ (∀ h ∈ hops, h ∈ p) ∧ p.length ≤ cutoff + 1
+
+theorem mem_candidates {g : TGraph} {a z : String} {hops : List String} {cutoff : Nat} {p : List String} :
+    p ∈ (allSimple g z cutoff a []).filter (hopOk g hops) ↔ HopPath g a z hops cutoff p := by
+  rw [List.mem_filter]
+  constructor
+  · rintro ⟨hm, hok⟩
+    obtain ⟨hh, hl, hc, hnd, _, hlen⟩ := allSimple_sound cutoff a [] p (by simp) hm
+    simp only [hopOk, Bool.and_eq_true, List.all_eq_true, decide_eq_true_eq] at hok
+    exact ⟨⟨hh, hl, hc⟩, ⟨hnd, chordFree_iff.1 hok.1⟩, hok.2, hlen⟩
+  · rintro ⟨⟨hh, hl, hc⟩, ⟨hnd, hcf⟩, hhops, hlen⟩
+    refine ⟨allSimple_complete cutoff a [] p ⟨hh, hl, hc, hnd, by simp, hlen⟩, ?_⟩
+    simp only [hopOk, Bool.and_eq_true, List.all_eq_true, decide_eq_true_eq]
+    exact ⟨chordFree_iff.2 hcf, hhops⟩
+
+theorem hops_ok {g : TGraph} {a z : String} {hops : List String} {cutoff : Nat} {p : List String}
+    (h : getNodesOnPathWithHops g a z hops cutoff = .ok p) :
+    a ∈ verts g ∧ z ∈ verts g ∧ p = pathWithHops g a z hops cutoff := by
+  unfold getNodesOnPathWithHops extract findNode at h
+  by_cases h1 : g.nodes.isEmpty = true <;> by_cases h2 : a ∈ verts g <;> by_cases h3 : z ∈ verts g <;>
+    simp [h1, h2, h3, bind, Except.bind, pure, Except.pure] at h
+  exact ⟨h2, h3, h.symm⟩
+
+theorem pathWithHops_spec (strict : QueryIdioms.hopsReplaceStrict = true) (g : TGraph) (a z : String) (hops : List String) (cutoff : Nat) :
+    let p := pathWithHops g a z hops cutoff
+    (p = [] ∧ ¬ ∃ q, HopPath g a z hops cutoff q) ∨
+    (HopPath g a z hops cutoff p ∧ ∀ q, HopPath g a z hops cutoff q → p.length ≤ q.length) := by
+  intro p
+  have hne : ∀ q ∈ (allSimple g z cutoff a []).filter (hopOk g hops), q ≠ [] := by
+    intro q hq he
+    have := (mem_candidates.1 hq).1.1
+    rw [he] at this; simp at this
+  rcases pick_spec strict hne with ⟨he, hp⟩ | ⟨hm, hmin⟩
+  · left
+    refine ⟨hp, ?_⟩
+    rintro ⟨q, hq⟩
+    have := mem_candidates.2 hq
+    rw [he] at this; simp at this
+  · right
+    exact ⟨mem_candidates.1 hm, fun q hq => hmin q (mem_candidates.2 hq)⟩
 
 end FimVerif.Query
